@@ -170,6 +170,9 @@ func genI2TextMatch(r *rng, n int, w *bufio.Writer) {
 			case j < 4:
 				t = pickRegexRule(r).RuleText
 				if r.chance(1, 3) {
+					t = genQuirkRule(r).RuleText
+				}
+				if r.chance(1, 3) {
 					t += "$" + strings.Join(eGenModifiers(r, strings.HasPrefix(t, "@@")), ",")
 				}
 			case j < 5:
